@@ -255,6 +255,14 @@ def _gen_probe_step(rng, sim, named):
     if not nonsegs or not pool:
         return None
     groups = [(n, x) for n, x in named if x.rt in ("O", "U")]
+    if v == "gfa2" and groups and segs and rng.random() < 0.12:
+        # a further line of a group which lists the group itself (a single line doing so is refused)
+        n, x = rng.choice(groups)
+        o = "+" if x.rt == "O" else ""
+        items = [rng.choice(segs) + o, n + o]
+        rng.shuffle(items)
+        return {"op": "add", "line": "%s\t%s\t%s" % (x.rt, n, " ".join(items)), "as": rng.choice(["str", "line"]),
+                "expect": "probe"}
     if v == "gfa2" and groups and segs and rng.random() < 0.3:
         # one more line of a group which defines a tag of the group differently (also when the
         # stored value is 0 / empty, and when the new one is); if a tag is missing it is given first
